@@ -19,8 +19,8 @@ namespace Givaro
     template<typename IntType, typename COMP, typename Enable> inline typename Modular<IntType, COMP, Enable>::Element&
     Modular<IntType, COMP, Enable>::mul (Element& r, const Element& a, const Element& b) const
     {
-        r = a;
-        r *= b;
+        if (&r == &b) r *= a; // r = a would overwrite b
+        else { r = a; r *= b; }
         r %= _p;
         return r;
     }
@@ -54,8 +54,8 @@ namespace Givaro
     template<typename IntType, typename COMP, typename Enable> inline typename Modular<IntType, COMP, Enable>::Element&
     Modular<IntType, COMP, Enable>::inv (Element& u1, const Element& a) const
     {
+        IntType r0(_p), r1(a); // u1 may be a: copy it before u1 is written
         u1=one;
-        IntType r0(_p), r1(a);
         IntType q(r0/r1);
 
         r0 -= q * r1;
@@ -133,11 +133,10 @@ namespace Givaro
     template<typename IntType, typename COMP, typename Enable> inline typename Modular<IntType, COMP, Enable>::Element&
     Modular<IntType, COMP, Enable>::axpy (Element& r, const Element& a, const Element& b, const Element& c) const
     {
-        r = a;
-        r *= b;
-        r += c;
-        r %= _p;
-        return r;
+        typename Modular<IntType, COMP, Enable>::Element tmp = a*b; // r may be b or c
+        tmp += c;
+        tmp %= _p;
+        return r = tmp;
     }
 
     template<typename IntType, typename COMP, typename Enable> inline typename Modular<IntType, COMP, Enable>::Element&
@@ -152,17 +151,18 @@ namespace Givaro
     template<typename IntType, typename COMP, typename Enable> inline typename Modular<IntType, COMP, Enable>::Element&
     Modular<IntType, COMP, Enable>::axmy (Element& r, const Element& a, const Element& b, const Element& c) const
     {
-        r = a*b;
-        r += (_p - c);
-        return r = (r < _p ? r : r%_p);
+        typename Modular<IntType, COMP, Enable>::Element tmp = a*b; // r may be c
+        tmp += (_p - c);
+        return r = (tmp < _p ? tmp : tmp%_p);
     }
 
     // r = c - a*b
     template<typename IntType, typename COMP, typename Enable> inline typename Modular<IntType, COMP, Enable>::Element&
     Modular<IntType, COMP, Enable>::maxpy (Element& r, const Element& a, const Element& b, const Element& c) const
     {
-        r = c;
-        return maxpyin(r, a, b);
+        typename Modular<IntType, COMP, Enable>::Element tmp = c; // r may be a or b
+        maxpyin(tmp, a, b);
+        return r = tmp;
     }
 
     // r -= a*b
@@ -176,8 +176,9 @@ namespace Givaro
     template<typename IntType, typename COMP, typename Enable> inline typename Modular<IntType, COMP, Enable>::Element&
     Modular<IntType, COMP, Enable>::axmyin (Element& r, const Element& a, const Element& b) const
     {
+        typename Modular<IntType, COMP, Enable>::Element tmp = a*b; // r may be a or b
         r = _p - r;
-        r += a*b;
+        r += tmp;
         return r = (r<_p ? r : r % _p);
     }
 
